@@ -48,6 +48,7 @@ type Frame struct {
 	headerSt      map[*ssa.BasicBlock]*State
 	headerDec     map[*ssa.BasicBlock]Term
 	preSt         map[*ssa.BasicBlock]*State
+	calledAtEntry map[*ssa.BasicBlock]map[string]Term
 	prePhi        map[*ssa.BasicBlock]map[*ssa.Phi]Val
 	debugVals     map[types.Object][]ssa.Value
 	inlineArgs    []Val
@@ -246,6 +247,23 @@ func (f *Frame) edge(from, to *ssa.BasicBlock, st *State, which int, setEdge fun
 			}
 		}
 		return
+	}
+	// leaving a loop: calls made before the loop was entered count again
+	for _, li := range f.loops {
+		if li.Body[from] && !li.Body[to] {
+			if saved := f.calledAtEntry[li.Header]; len(saved) > 0 {
+				if st.called == nil {
+					st.called = map[string]Term{}
+				}
+				for k, v := range saved {
+					if cur, ok := st.called[k]; ok {
+						st.called[k] = tOr(cur, v)
+					} else {
+						st.called[k] = v
+					}
+				}
+			}
+		}
 	}
 	setEdge(from, to, st, which)
 }
@@ -1250,7 +1268,17 @@ func (f *Frame) loopHeader(li *LoopInfo, st *State, phiEntry map[*ssa.Phi]Val) {
 		}
 	}
 	if f.isTop {
-		st.called = map[string]Term{} // per-iteration: calls made before the loop head do not count
+		// inside the loop called(F) means "in this iteration"; what was called before the loop counts again
+		// once the loop has been left (see edge)
+		if f.calledAtEntry == nil {
+			f.calledAtEntry = map[*ssa.BasicBlock]map[string]Term{}
+		}
+		saved := make(map[string]Term, len(st.called))
+		for k, v := range st.called {
+			saved[k] = v
+		}
+		f.calledAtEntry[li.Header] = saved
+		st.called = map[string]Term{}
 	}
 	for p := range phiEntry {
 		invariant := true
